@@ -68,6 +68,8 @@ type simTransport struct {
 	wire  map[string][]byte // if not nil: the body of every request as written to the wire, by token
 	// dialSplit: how much of a planned delay passes before the request is written (0 none, 1 half, 2 all)
 	dialSplit int
+	// owner: if set, the transport of one of several clients; tokens of its client's requests start with it
+	owner string
 }
 
 type tplan struct {
@@ -88,6 +90,9 @@ func (t *simTransport) RoundTrip(_ *fasthttp.HostClient, req *fasthttp.Request, 
 		return tok
 	}
 	tok0 := tokenOf()
+	if t.owner != "" && !strings.HasPrefix(tok0, t.owner) {
+		t.s.Fail("C18.request-sent-through-another-client", "request %q arrived at the transport of client %q: an attempt of one client's request was sent with another client's settings", tok0, t.owner)
+	}
 	var d time.Duration
 	fail := false
 	if p := t.plans[tok0]; p != nil {
@@ -174,6 +179,7 @@ type hoOp struct {
 	mustOK     bool
 	ticket     string
 	hookPanics bool
+	second     bool // sent through the second client
 }
 
 func clientHandoff(s *simrt.Sim, info *harness.RunInfo) {
@@ -211,6 +217,17 @@ func clientHandoff(s *simrt.Sim, info *harness.RunInfo) {
 	if useRetry {
 		cl.SetRetryConfig(&client.RetryConfig{InitialInterval: 100 * time.Millisecond, MaxBackoffTime: time.Second, Multiplier: 2, MaxRetryCount: 3})
 	}
+	// a second client with a transport of its own (another upstream): the two share nothing but the package's pools
+	var cl2 *client.Client
+	if s.Chance(350) {
+		tr.owner = "tok-"
+		tr2 := &simTransport{s: s, app: app, plans: tr.plans, dialSplit: dialSplit, owner: "two-"}
+		cl2 = client.NewWithClient(&fasthttp.Client{Transport: tr2})
+		if useRetry {
+			cl2.SetRetryConfig(&client.RetryConfig{InitialInterval: 100 * time.Millisecond, MaxBackoffTime: time.Second, Multiplier: 2, MaxRetryCount: 3})
+		}
+		s.Count("probe_two_clients_side_by_side")
+	}
 	if ticketHook {
 		cl.AddRequestHook(func(c *client.Client, r *client.Request) error {
 			tok := ""
@@ -234,10 +251,14 @@ func clientHandoff(s *simrt.Sim, info *harness.RunInfo) {
 		for j := 0; j < n; j++ {
 			op := &hoOp{id: len(all), cliTO: cliTimeout}
 			op.token = fmt.Sprintf("tok-%d-%d", ti, op.id)
+			if cl2 != nil && s.Chance(400) {
+				op.second, op.cliTO = true, 0
+				op.token = fmt.Sprintf("two-%d-%d", ti, op.id)
+			}
 			op.timeout = simrt.PickS(s, time.Second, 0, 500*time.Millisecond, 2*time.Second)
 			eff := op.timeout
 			if eff == 0 {
-				eff = cliTimeout
+				eff = op.cliTO
 			}
 			base := eff
 			if base == 0 {
@@ -261,7 +282,7 @@ func clientHandoff(s *simrt.Sim, info *harness.RunInfo) {
 			if s.Chance(120) {
 				op.cancelAt = simrt.PickS(s, base/2, base, 10*time.Millisecond)
 			}
-			if hookPanics && s.Chance(200) {
+			if hookPanics && !op.second && s.Chance(200) {
 				op.hookPanics = true
 			}
 			tr.plans[op.token] = op.plan
@@ -279,6 +300,9 @@ func clientHandoff(s *simrt.Sim, info *harness.RunInfo) {
 			for _, op := range p {
 				simrt.Sleep(simrt.PickS(s, 0, 0, 250*time.Millisecond, 500*time.Millisecond, time.Second))
 				req := cl.R()
+				if op.second {
+					req = cl2.R()
+				}
 				req.SetHeader("X-Token", op.token)
 				if op.timeout > 0 {
 					req.SetTimeout(op.timeout)
@@ -375,7 +399,7 @@ func clientHandoff(s *simrt.Sim, info *harness.RunInfo) {
 			if op.body != "echo:"+op.token || op.echo != op.token || op.status != 200 {
 				s.Fail("C18.response-belongs-to-request", "op%d %s was handed status=%d body=%q X-Echo=%q: not the response to this request", op.id, op.token, op.status, op.body, op.echo)
 			}
-			if ticketHook && op.ticket != "ticket-for-"+op.token {
+			if ticketHook && !op.second && op.ticket != "ticket-for-"+op.token {
 				s.Fail("C18.client-value-set-by-hook-reached-another-request", "op%d %s: its request hook set the client-level header X-Ticket to %q, the server received %q", op.id, op.token, "ticket-for-"+op.token, op.ticket)
 			}
 			if eff > 0 && op.elapsed > eff {
